@@ -1009,11 +1009,31 @@ def rule_promptness(ctx, rep, cfgs):
             leaf = list(leaves)[0]
             if not (s.record and s.record == (leaf, 'early')):
                 rep.viol(rid, 'withheld:%s' % k, 'state %s: every byte and the end of input lead to a state recording leaf %s, so the item is decided here, yet the state records %s: the early-accept optimisation missed it and a partial lexer withholds the item' % (name, leaf, s.record), d.name)
-    g18 = rep.rule('G18', 'promptness: a state that records leaf L as an early match and has no self loop must not have pure sinks re-recording L as its only successors (such a successor records the same end and the same leaf, so the continuation decides nothing, yet its presence makes a partial lexer answer "need more input")', floor=500)
+    g18 = rep.rule('G18', 'promptness (definitions whose matches do not depend on the next symbol, decided on the printed reference DFA): a state that records leaf L as an early match and has no self loop must not have pure sinks re-recording L as its only successors (such a successor records the same end and the same leaf, so the continuation decides nothing, yet its presence makes a partial lexer answer "need more input")', floor=500)
+    import autlib
+    la_cache = {}
+
+    def la_free(d):
+        """the definition's matches do not depend on the next symbol (decided on the reference DFA the derive printed);
+        definitions with look-around may yield one byte later (property text), so G18 does not apply to them"""
+        key = (d.backend, d.name)
+        if key not in la_cache:
+            v = False
+            inv = getattr(d, 'inv', None)
+            if inv is not None and inv.dfa_text:
+                try:
+                    v = autlib.lookahead_free(inv.dfa(), inv.leaves)
+                except autlib.ParseError:
+                    v = False
+            la_cache[key] = v
+        return la_cache[key]
+
     for cfg, d, m, sm, name, s in each_state(ctx, cfgs):
         k = skey(d, m, name)
         rep.inst(g18, k)
         if not s.record or s.record[1] != 'early' or s.loopset:
+            continue
+        if not la_free(d):
             continue
         succ = set(s.edges.values())
         if s.eoi_edge is not None:
